@@ -186,7 +186,7 @@ def run_check(prop, tier, seed):
         "disagreements_checked": len(cases) if model_out[0] is not None or not cases else 0,
         "oracle_failures": len(oracle_fail),
         "known_finding_hits": dict(known_hits),
-        "theorems": getattr(mod, "THEOREMS", []),
+        "theorems": core.theorem_names(mod.PROP_FILES),
         "corpus_cases": len(corpus),
     }
     core.write_evidence(prop, tier, seed, b, coverage, getattr(mod, "ASSUMPTIONS", []),
